@@ -102,6 +102,10 @@ def to_formula(e: ast.expr, subst: Callable[[ast.expr], Formula | None] | None =
                 return t
             if (isinstance(op, ast.Eq) and ci == 0) or (isinstance(op, ast.Lt) and ci == 1) or (isinstance(op, ast.LtE) and ci == 0):
                 return f_not(t)
+        if isinstance(op, (ast.Eq, ast.NotEq)) and not isinstance(right, (ast.Constant, ast.List)) and not isinstance(left, ast.Constant):
+            a, b = sorted([norm(left), norm(right)])  # equality is symmetric: one canonical atom
+            eq = atom(f"{a} == {b}")
+            return eq if isinstance(op, ast.Eq) else f_not(eq)
         if isinstance(op, ast.NotEq):
             if isinstance(right, ast.List) and not right.elts:
                 return atom(f"bool({norm(left)})")
